@@ -205,3 +205,21 @@ def _(c):
               name="accepted_iff_every_type_argument_accepts_the_others")
     c.ensures(f"implies({typed} and ga is not None and len(self.args) == len(ga) and len(self.args) == 0, is_error(result))", name="no_arguments_no_match")
     c.assume("replace_known_sequence_value / get_generic_args_for_type / the TypedValue constructor are functional callees; when the other value's class has no known generic arguments for this origin the decision is TypedValue.can_assign's (nominal)")
+
+
+@contract("pyanalyze.value.SubclassValue.can_assign", props=P4)
+def _(c):
+    c.returns("val")
+    c.functional = True
+    c.fn_name = "can_assign"
+    c.fieldspec("typ", "val")
+    c.fieldspec("val", "val")
+    c.fieldspec("typevar", "val")
+    c.callee("super().can_assign", lambda k: (k.param("other", "val"), k.param("ctx", "val"), k.returns("val"), setattr(k, "functional", True), setattr(k, "fn_name", "Value.can_assign.super")))
+    c.callee("TypedValue", lambda k: (k.param("t", "val"), k.returns("obj:TypedValue"), setattr(k, "functional", True), setattr(k, "fn_name", "new_TypedValue"), k.ensures("result.typ is t")))
+    c.callee("LowerBound", lambda k: (k.param("tv", "val"), k.param("v", "val"), k.returns("val")))
+    # Type[X] is covariant in X; a class object literal is judged as the class it denotes
+    c.ensures("implies(isa(other, SubclassValue), same(result, self.typ.can_assign(other.typ, ctx)))", name="type_of_is_covariant")
+    c.ensures("implies(isa(other, KnownValue) and not isa(other, SubclassValue) and isinstance(other.val, type) and isa(self.typ, TypedValue),"
+              " same(result, self.typ.get_type_object(ctx).can_assign(self, TypedValue(other.val), ctx)))", name="a_class_literal_is_judged_as_the_class_it_denotes")
+    c.ensures("implies(isa(other, TypedValue) and not isa(other, (SubclassValue, KnownValue)) and other.typ is type, not is_error(result))", name="plain_type_is_accepted")
